@@ -149,5 +149,6 @@ func TestC12(t *testing.T) {
 		ev.Count("op:"+k, v)
 	}
 	parallelCases(vlib.Scale(20, 400), 4, func(i int) { c12PoolDifferential(ev, i) })
+	parallelCases(vlib.Scale(40, 800), 4, func(i int) { c12LinkUnderLoad(ev, i) })
 	finish(t, ev)
 }
